@@ -95,4 +95,15 @@ theorem C15_append_stale (old : Bytes) (f : File) (hne : old ≠ []) :
 
 example : TS32297.read (encodeFile C14.sample) = some C14.sample := by decide
 
+open Chf.CodecState in
+/-- the octets written for a well-formed file are read back by the independent reader after ANY history of earlier writes:
+    with the regenerated facts about `cdr/cdrFile`'s package-level variables (`C14_codec_globals_frozen`) no earlier call —
+    completed or failed — can leave anything behind for the next one -/
+theorem C15_history {V : Type} (impl : Store V → File → Bytes × Store V)
+    (hr : Respects Gen.cdrFileGlobals impl) (g : Store V) (hcorr : ∀ f, (impl g f).1 = encodeFile f)
+    (hist : List File) (f : File) (hw : f.WF) :
+    TS32297.read (impl (after impl g hist) f).1 = some f := by
+  rw [history_independent C14.C14_codec_globals_frozen hr g hist, hcorr]
+  exact C15 f hw
+
 end Chf.Props.C15
